@@ -106,8 +106,10 @@ class Importer:
 
 
 class Event:
-    def __init__(self, log, name, scope_instance_id, planned=False):
+    def __init__(self, log, name, scope_instance_id, planned=False, start_time_jd=0.0, end_time_jd=1e9):
+        # (by default an event that started long before this step and is still running: the query returned it, so it is relevant)
         self.log, self.name, self.scope_instance_id, self.planned = log, name, scope_instance_id, planned
+        self.start_time_jd, self.end_time_jd = start_time_jd, end_time_jd
 
     def handleEvent(self, inst):
         self.log.append(("handleEvent", self.name, inst))
